@@ -7,6 +7,7 @@ import (
 	"io"
 	"math/big"
 	"sort"
+	"strings"
 	"sync"
 
 	"github.com/dominant-strategies/go-quai/common"
@@ -376,13 +377,48 @@ type BrokenStateError struct{ Msg string }
 
 func (e *BrokenStateError) Error() string { return e.Msg }
 
+// NegativeSizeMark is appended to a BrokenStateError's message when the object that could not be
+// encoded has a non-negative balance and a negative storage-size counter: the crash form of the
+// recorded finding FpSuicideSize (Suicide zeroes the counter without journalling it; a reverted
+// SELFDESTRUCT followed by a slot deletion drives it below zero).
+const (
+	NegativeSizeMark = " [storage-size counter negative, balance not]"
+	FpSuicideSize    = "C12/A/revert/acct.size/x=suicide"
+)
+
+func diagnoseBroken(sdb *state.StateDB, msg string) (out string) {
+	defer func() {
+		if recover() != nil {
+			out = ""
+		}
+	}()
+	const marker = "can't encode object at "
+	i := strings.Index(msg, marker)
+	if i < 0 || len(msg) < i+len(marker)+40 {
+		return ""
+	}
+	b := common.FromHex(msg[i+len(marker) : i+len(marker)+40])
+	if len(b) != 20 {
+		return ""
+	}
+	var ia common.InternalAddress
+	copy(ia[:], b)
+	if sdb.GetBalance(ia).Sign() >= 0 && sdb.GetSize(ia).Sign() < 0 {
+		return NegativeSizeMark
+	}
+	return ""
+}
+
+// BrokenBySuicideSize reports whether a broken-state message carries NegativeSizeMark.
+func BrokenBySuicideSize(msg string) bool { return strings.Contains(msg, NegativeSizeMark) }
+
 // Snapshot walks the account trie (after IntermediateRoot) and returns every balance. It fails
 // if an account cannot be attributed to an address, so that a sum is never silently partial.
 func Snapshot(sdb *state.StateDB) (bal *Balances, err error) {
 	defer func() {
 		// the account encoder panics on a negative balance; report it instead of crashing
 		if r := recover(); r != nil {
-			bal, err = nil, &BrokenStateError{Msg: fmt.Sprint(r)}
+			bal, err = nil, &BrokenStateError{Msg: fmt.Sprint(r) + diagnoseBroken(sdb, fmt.Sprint(r))}
 		}
 	}()
 	sdb.IntermediateRoot(true)
